@@ -200,12 +200,15 @@ def judge_c08(cfg, market, out, ctx):
             else:
                 sized = size_long_short(E, cfg["leverage"], rate, fw, lambda a: price(a, t))
             target = {}
-            if set(srec["result"]) != set(sized):
-                ctx.violate(P, "target_asset_set", {"t": iso(t), "impl": sorted(srec["result"]), "ref": sorted(sized)})
+            # an asset the sizer leaves out has no target, i.e. a target of zero; only quantities are judged
+            stray = [a for a, q in srec["result"].items() if a not in sized and q != 0]
+            if stray:
+                ctx.violate(P, "target_for_asset_outside_the_weight_vector",
+                            {"t": iso(t), "assets": stray, "impl": srec["result"], "ref": sorted(sized)})
                 return
             for a in sorted(sized):
                 cands, alloc, x = sized[a]
-                qi = srec["result"][a]
+                qi = srec["result"].get(a, 0)
                 if qi not in cands:
                     ctx.violate(P, "target_quantity_differs_from_documented_sizing",
                                 {"t": iso(t), "asset": a, "impl": qi, "reference": sorted(cands),
